@@ -549,16 +549,20 @@ mod v2 {
             struct Recording {
                 spec: SubSpec,
                 trace: Trace,
+                /// `(id, n)`: subscriber `id` dies once `n` sends have been made in total
+                dying: Option<(u32, usize)>,
             }
 
             impl Subscriber<u32, u32> for Recording {
                 fn send(&self, value: &u32) -> bool {
+                    let mut trace = self.trace.lock().unwrap();
+                    let late = matches!(self.dying, Some((id, n)) if id == self.spec.id && trace.len() >= n);
                     // same shape as `Filtering::send`: a filtered-out value counts as sent
                     let ok = match conv(self.spec.conv, *value) {
-                        Some(_) => !self.spec.dead,
+                        Some(_) => !(self.spec.dead || late),
                         None => true,
                     };
-                    self.trace.lock().unwrap().push((self.spec.key, *value, ok));
+                    trace.push((self.spec.key, *value, ok));
                     ok
                 }
                 fn id(&self) -> u32 {
@@ -573,11 +577,23 @@ mod v2 {
                 batch: &[Item],
                 allow_duplicate_subscription: bool,
             ) -> (Vec<(u32, u32, bool)>, Vec<u32>) {
+                dispatch_dying(subscribers, batch, allow_duplicate_subscription, None).await
+            }
+
+            /// Like `dispatch`; with `dying = Some((id, n))` the subscriber actor `id` dies in
+            /// the middle of the batch, after `n` `Subscriber::send` calls have been made.
+            pub async fn dispatch_dying(
+                subscribers: &[SubSpec],
+                batch: &[Item],
+                allow_duplicate_subscription: bool,
+                dying: Option<(u32, usize)>,
+            ) -> (Vec<(u32, u32, bool)>, Vec<u32>) {
                 let trace: Trace = Arc::new(Mutex::new(Vec::new()));
                 let mk = |spec: &SubSpec| -> Box<dyn Subscriber<u32, u32>> {
                     Box::new(Recording {
                         spec: *spec,
                         trace: trace.clone(),
+                        dying,
                     })
                 };
                 let mut subs: Subscribers<u32, u32> =
